@@ -26,6 +26,10 @@ func verifC15Retry(maxAttempts int, elapsed time.Duration) {
 	verifAssert(created == 1, "one body is created for the batch")
 	verifAssert(!up.afterOK, "a body is sent again after a successful attempt")
 	verifAssert(up.delivered <= 1 && len(up.rec.maps) == up.delivered, "the upstream pipeline receives the batch at most once")
+	for _, got := range up.rec.maps {
+		c, ok := got.Counters["c"][""]
+		verifAssert(ok && c.Value == 5, "a delivered request carries the datapoints of the batch (also when it is a retry)")
+	}
 	verifAssert(sent+dropped == 1, "the batch is either sent or counted once as dropped")
 	verifAssert(sent == uint64(up.delivered), "sent iff an attempt succeeded")
 	if dropped == 1 {
@@ -74,36 +78,41 @@ func verifC15Utf8(n int) {
 func VerifC15_Utf8_1() { verifC15Utf8(1) }
 func VerifC15_Utf8_2() { verifC15Utf8(2) }
 
-// VerifC15_Split: SplitByTags puts each series in exactly one map, keyed by exactly its tags
-// matching a dynamic header name, and the request built for that map carries the header.
-func verifC15Split(nSeries, tlen int) {
-	names := []string{"region:"}
+// VerifC15_Split: SplitByTags puts each series in exactly one map, keyed by exactly the sub-list
+// of its tags that match a dynamic header name (in order), and the request built for that map
+// carries the headers with the tags' values.
+var verifDynNames = []string{"region:", "env:"}
+
+func verifC15Split(nSeries, nTags int) {
 	mm := gostatsd.NewMetricMap(false)
 	type ser struct {
 		name string
-		tag  string
+		tk   string
 		key  string
 	}
 	var sers []ser
 	for i := 0; i < nSeries; i++ {
-		body := nondetBytes(tlen)
-		for j := range body {
-			verifAssume(body[j] != ',' && body[j] < 0x80 && body[j] >= 0x20)
+		var tags, match []string
+		for t := 0; t < nTags; t++ {
+			body := nondetBytes(1)
+			verifAssume(body[0] != ',' && body[0] < 0x80 && body[0] > 0x20 && body[0] != ':')
+			tag := string(body)
+			switch nondetIntIn(0, 2) {
+			case 0:
+				tag = "region:" + tag
+				match = append(match, tag)
+			case 1:
+				tag = "env:" + tag
+				match = append(match, tag)
+			}
+			tags = append(tags, tag)
 		}
-		tag := string(body)
-		if nondetBool() {
-			tag = "region:" + tag
-		}
-		tk := tag
+		tk := strings.Join(tags, ",")
 		n := string([]byte{'n', byte('0' + i)})
-		mm.Counters[n] = map[string]gostatsd.Counter{tk: {Value: int64(i + 1), Tags: gostatsd.Tags{tag}}}
-		exp := ""
-		if strings.HasPrefix(tag, "region:") {
-			exp = tag
-		}
-		sers = append(sers, ser{n, tk, exp})
+		mm.Counters[n] = map[string]gostatsd.Counter{tk: {Value: int64(i + 1), Tags: gostatsd.Tags(tags)}}
+		sers = append(sers, ser{n, tk, strings.Join(match, ",")})
 	}
-	parts := mm.SplitByTags(names)
+	parts := mm.SplitByTags(verifDynNames)
 	total := 0
 	for _, p := range parts {
 		total += verifCountSeries(p)
@@ -112,7 +121,7 @@ func verifC15Split(nSeries, tlen int) {
 	for _, s := range sers {
 		found := 0
 		for key, p := range parts {
-			if _, ok := p.Counters[s.name][s.tag]; ok {
+			if _, ok := p.Counters[s.name][s.tk]; ok {
 				found++
 				verifAssert(key == s.key, "SplitByTags: a series is in the map keyed by its tags matching a dynamic header name")
 			}
@@ -120,26 +129,35 @@ func verifC15Split(nSeries, tlen int) {
 		verifAssert(found == 1, "SplitByTags: each series is in exactly one map")
 	}
 	verifReach("split")
-	// the request built for a map carries the matching header
+}
+
+func VerifC15_Split_1_2() { verifC15Split(1, 2) }
+func VerifC15_Split_1_3() { verifC15Split(1, 3) }
+func VerifC15_Split_2_2() { verifC15Split(2, 2) }
+
+// VerifC15_Header: the request built for a split map carries the dynamic header of its key.
+func VerifC15_Header() {
+	body := nondetBytes(1)
+	verifAssume(body[0] != ',' && body[0] < 0x80 && body[0] > 0x20 && body[0] != ':')
+	tag := string(body)
+	has := nondetBool()
+	if has {
+		tag = "region:" + tag
+	}
 	hfh, up := verifNewForwarder(false, 1, false, web.Zlib, 30*time.Second)
-	hfh.dynHeaderNames = names
-	s0 := sers[0]
+	hfh.dynHeaderNames = verifDynNames
 	one := gostatsd.NewMetricMap(false)
-	one.Counters[s0.name] = map[string]gostatsd.Counter{s0.tag: {Value: 1, Tags: gostatsd.Tags{s0.tag}}}
-	for key, p := range one.SplitByTags(names) {
+	one.Counters["n"] = map[string]gostatsd.Counter{tag: {Value: 1, Tags: gostatsd.Tags{tag}}}
+	for key, p := range one.SplitByTags(verifDynNames) {
 		hfh.postMetrics(context.Background(), p, key, 1)
 	}
-	if s0.key != "" {
+	if has {
 		verifReach("header")
-		verifAssert("region:"+up.dynHeader == s0.key, "the request carries the dynamic header with the tag's value")
+		verifAssert("region:"+up.dynHeader == tag, "the request carries the dynamic header with the tag's value")
 	} else {
 		verifAssert(up.dynHeader == "", "no dynamic header for a series without a matching tag")
 	}
 }
-
-func VerifC15_Split_1_1() { verifC15Split(1, 1) }
-func VerifC15_Split_2_1() { verifC15Split(2, 1) }
-func VerifC15_Split_2_2() { verifC15Split(2, 2) }
 
 func VerifC15_Twin() {
 	verifC15Retry(2, 30*time.Second)
